@@ -81,7 +81,28 @@ func rnode(r *mrand.Rand) lime.Node {
 	return n
 }
 
+// envelopeShaped returns a JSON object that would itself decode as an envelope: a payload of
+// this shape is what a receiver that lost its place in the stream could mistake for a frame.
+func envelopeShaped(r *mrand.Rand, size int) map[string]interface{} {
+	id := "in-" + rword(r, 1+r.IntN(5))
+	switch r.IntN(5) {
+	case 0:
+		return map[string]interface{}{"id": id, "event": "received"}
+	case 1:
+		return map[string]interface{}{"id": id, "method": "delete", "uri": "/" + rword(r, 1+r.IntN(6))}
+	case 2:
+		return map[string]interface{}{"id": id, "type": "text/plain", "content": rtext(r, size)}
+	case 3:
+		return map[string]interface{}{"id": id, "method": "get", "status": "success"}
+	default:
+		return map[string]interface{}{"id": id, "state": "finished"}
+	}
+}
+
 func rjson(r *mrand.Rand, size, depth int) map[string]interface{} {
+	if depth >= 1 && r.IntN(6) == 0 {
+		return envelopeShaped(r, size)
+	}
 	m := map[string]interface{}{}
 	n := 1 + r.IntN(4)
 	for i := 0; i < n; i++ {
